@@ -15,6 +15,9 @@
 (*     "given": bytes = file content handed to a reader;  "cut": n = keep first n bytes         *)
 (*     "next" : one __next__ of IpmReader: out = "rec" (d = dict entries) | "stop"              *)
 (*              | "liberr" (n = record_number or -1, bytes = binary_context_data) | "exc" | "hang" *)
+(*     "csvrow": d = the non-empty cells of one CSV data row written by an extraction tool;     *)
+(*               "csvend": the CSV has no more rows.  cols = the configured output columns.     *)
+(*     "tool"  : a command-line tool run on the file: out = "returned" | "exc" | "hang"         *)
 (* loc = TRUE: record number and context bytes of a library error are judged (C10).            *)
 (***************************************************************************)
 EXTENDS Iso8583, Vbs
@@ -67,6 +70,24 @@ Judge(s, blk, e) ==
                           ELSE [s |-> adv, v |-> ""]
                      ELSE IF r.st = "strict" THEN [s |-> adv, v |-> "rejected-a-must-accept"]
                           ELSE [s |-> adv, v |-> locv]
+      [] e.op = "csvrow" ->
+            \* one data row of the CSV written by mci_ipm_to_csv / mideu extract for the next record of the file:
+            \* exactly the configured output columns (Tr.cols) that the record's strict reading carries
+            LET stream == StreamOf(blk, s.cur)
+                a == ReadAt(stream, s.rpos)
+                adv == [s EXCEPT !.rpos = a.next, !.ryield = s.ryield + 1]
+            IN  IF a.k # "record" THEN [s |-> s, v |-> "csv-row-without-a-record"]
+                ELSE LET r == Reading(a.rec, FALSE) IN
+                     IF r.st # "strict" THEN [s |-> adv, v |-> ""]
+                     ELSE IF CsvCells(r.d, Tr.cols) = ToDict(e.d) THEN [s |-> adv, v |-> ""]
+                     ELSE [s |-> adv, v |-> "csv-row-differs-from-the-reading-of-its-record"]
+      [] e.op = "csvend" ->
+            LET a == ReadAt(StreamOf(blk, s.cur), s.rpos)
+            IN  IF a.k = "record" THEN [s |-> s, v |-> "csv-ended-before-the-last-record"] ELSE [s |-> s, v |-> ""]
+      [] e.op = "tool" ->
+            \* a command-line tool was run on the current file: it catches the library error and must always return
+            \* (with a diagnostic) - a traceback or a hang is in no outcome set (C07)
+            [s |-> s, v |-> IF e.out = "returned" THEN "" ELSE "tool-did-not-return-" \o e.out]
       [] OTHER -> [s |-> s, v |-> "unknown-op"]
 
 Step == /\ tid <= NTr /\ l <= Len(Tr.events)
